@@ -54,7 +54,7 @@ CHECKS = {
  "C08": dict(
     text="Bounded partial claim. (1) z3's regex theory proves over ALL strings that every value on which the variable resolver's pattern finds a var(--N ..) reference is "
          "one the updater's pattern can rewrite (patterns read from the current source). (2) The real click callback `main` is executed symbolically, in-process, on "
-         "18 stylesheet skeletons (at-rules nested up to three levels) whose colours are symbolic rgb() tokens passing through tinycss2 for real, make_readable a recording stub: every rule counted exactly once, "
+         "19 stylesheet skeletons (at-rules nested up to three levels, unparseable colours) whose colours are symbolic rgb() tokens passing through tinycss2 for real, make_readable a recording stub: every rule counted exactly once, "
          "'already readable' only when the reference ratio meets 4.5/7.0, an adjusted rule's declaration or custom property in the written _cm.css IS the reported colour, "
          "make_readable called on the rule's own pair with (mode, premium), failures listed and unchanged.",
     note="claimed ONLY for instances of the listed skeletons (rgb() colours); arbitrary stylesheets are outside; one known finding (shared custom property "
